@@ -68,6 +68,9 @@ def run_case(case, chooser=None):
         if case.get('cookies') and k == 0:
             headers.append(['Set-Cookie', 'sid=one'])
             headers.append(['Set-Cookie', 'dom=two; Domain=a.test; Path=/'])
+        if case.get('cookies'):
+            # every hop sets a host-only cookie of its own
+            headers.append(['Set-Cookie', 'hop%d=%s' % (k, hostkey(conn, req))])
         if k < len(plan):
             code, loc = plan[k]
             return {'redirect': [code, loc], 'headers': headers}
@@ -79,6 +82,10 @@ def run_case(case, chooser=None):
     site = site_hosts()
     out = AppRun(site, argv, chooser or Chooser(), strategy=strategy, early=False).run()
     return out
+
+
+def hostkey(conn, req):
+    return req['headers'].get('host', conn.host_name).replace(':', '_')
 
 
 def judge(case, out):
@@ -135,6 +142,11 @@ def judge(case, out):
                 return '%s: host-only cookie of %s sent to %s' % (where, first_host, host)
             if 'dom=two' in ck and not (host == 'a.test' or host.endswith('.a.test')):
                 return '%s: cookie for domain a.test sent to %s' % (where, host)
+            for mm in re.finditer(r'hop(\d+)=([^;\s]+)', ck):
+                setter = mm.group(2).split('_')[0]
+                if setter != host:
+                    return ('%s: host-only cookie set by %s (hop %s) sent to %s'
+                            % (where, setter, mm.group(1), host))
         if 'referer' in q['headers']:
             ref = q['headers']['referer']
             if ref.startswith('https://') and scheme == 'http':
